@@ -162,6 +162,7 @@ class NetSvcCase:
         pre = self.listing()
         mine = [ip for ip, o in pre.items() if o == i]
         free = [h for h in self.hosts if h not in pre]
+        marks = {n: set(v['members']) for n, v in self.k.sets.items()}
         st, val = self.call(step, self.impl.on_create_request, i, {'environment': self.env[i]})
         post = self.listing()
         self.log.append(dict(op=step, o=i, status=st, ret=(val.get('vip') if st == 'ok' else str(val)[:80])))
@@ -201,6 +202,11 @@ class NetSvcCase:
                     self.violate('refused-request-bound-entry', str(added))
             elif self.k.errors:
                 self.ctx.count('netsvc_create_refused_by_kernel_state')
+            elif any(ip in m for ip in list(added) + mine for n, m in marks.items()
+                     if n != self.ns._SET_BY_ENVIRONMENT[self.env[i]]):
+                # not an ownership matter: the address still carries the environment mark (ipset) of a vanished
+                # owner whose delete request is queued behind this one; the service answers with an error
+                self.ctx.count('netsvc_create_refused_stale_env_mark')
             else:
                 self.violate('exception:%s@on_create_request' % type(val).__name__,
                              'on_create_request(%s) raised %r with %d free addresses' % (i, val, len(free)))
